@@ -33,6 +33,10 @@ func specSuppressed(value uint32, code int) bool {
 type tableCase struct {
 	Value uint32 `json:"value"`
 	Code  int    `json:"code"`
+	// Shape: which other options the request carries next to No-Response (258): 0 none,
+	// 1 lower-numbered ones (Uri-Path, Accept), 2 higher-numbered ones (Request-Tag 292, an
+	// unknown elective option 65000), 3 both
+	Shape int `json:"shape,omitempty"`
 }
 
 type relClient struct{}
@@ -47,9 +51,17 @@ func execTable(c tableCase) *evid.Failure {
 	}
 	// the response writer, as a handler sees it: the request carried No-Response = value
 	buf := make([]byte, 8)
-	opts, _, e := message.Options{}.SetUint32(buf, message.NoResponse, c.Value)
+	nr, _, e := message.Options{}.SetUint32(buf, message.NoResponse, c.Value)
 	if e != nil {
 		return evid.Failf("table/harness", c, "cannot build option: %v", e)
+	}
+	var opts message.Options // in ascending option-number order, as a decoded request has them
+	if c.Shape&1 != 0 {
+		opts = append(opts, message.Option{ID: message.URIPath, Value: []byte("nr")}, message.Option{ID: message.Accept, Value: []byte{0}})
+	}
+	opts = append(opts, nr...)
+	if c.Shape&2 != 0 {
+		opts = append(opts, message.Option{ID: 292, Value: []byte{0xA1}}, message.Option{ID: 65000, Value: []byte("v")})
 	}
 	resp := pool.NewMessage(context.Background())
 	w := responsewriter.New(resp, relClient{}, opts...)
@@ -95,21 +107,23 @@ func tableEngine() evid.Engine {
 			values = append(values, 0xffffffff, 0xfffffffd, 0xffffffe5, 0x7fffffff, 255, 256, 65535, 65536, 1<<24-1)
 			for _, v := range values {
 				for code := 0; code < 256; code++ {
-					c := tableCase{v, code}
-					if f := evid.SafeExec("table", execTable, c); f != nil {
-						r.Fail(f)
-					}
-					nt := v != 0 && code>>5 >= 2 && code>>5 <= 5
-					r.Eval(1)
-					if nt {
-						r.AddDistinct(1)
+					for shape := 0; shape < 4; shape++ {
+						c := tableCase{v, code, shape}
+						if f := evid.SafeExec("table", execTable, c); f != nil {
+							r.Fail(f)
+						}
+						nt := v != 0 && code>>5 >= 2 && code>>5 <= 5
+						r.Eval(1)
+						if nt {
+							r.AddDistinct(1)
+						}
 					}
 				}
 			}
 			r.Class("table/values", int64(len(values)))
-			r.Sample("table", tableCase{2, int(codes.Continue)})
-			r.Sample("table", tableCase{8, int(codes.RequestEntityIncomplete)})
-			r.Sample("table", tableCase{26, 0xa0})
+			r.Sample("table", tableCase{2, int(codes.Continue), 0})
+			r.Sample("table", tableCase{8, int(codes.RequestEntityIncomplete), 2})
+			r.Sample("table", tableCase{26, 0xa0, 3})
 		},
 	}
 }
@@ -121,7 +135,7 @@ func TestCheck(t *testing.T) {
 	engines := []evid.Engine{tableEngine()}
 	engines = append(engines, e2eEngines()...)
 	r.Main(evid.Meta{
-		Rule:        "table: every No-Response value 0-63 and a grid of larger values (each high bit alone and combined with the meaningful subsets, 2^32-1, ...) x all 256 codes through IsNoResponseCode and ResponseWriter.SetResponse against the RFC 7967 class rule; non-trivial = value != 0 and code class 2.xx-5.xx (distinct by construction). e2e: generated (value, code, CON/NON, transport) requests to a library endpoint on the in-memory network, oracle on the wire log; non-trivial = value != 0 and a response code, distinct by (transport, type, value, code)",
+		Rule:        "table: every No-Response value 0-63 and a grid of larger values (each high bit alone and combined with the meaningful subsets, 2^32-1, ...) x all 256 codes x 4 request shapes (No-Response alone, behind lower-numbered options, in front of higher-numbered ones such as Request-Tag 292 and an unknown elective option, both) through IsNoResponseCode and ResponseWriter.SetResponse against the RFC 7967 class rule; non-trivial = value != 0 and code class 2.xx-5.xx (distinct by construction). e2e: generated (value, code, CON/NON, transport, optional higher-numbered elective options behind No-Response) requests to a library endpoint on the in-memory network, oracle on the wire log; non-trivial = value != 0 and a response code, distinct by (transport, type, value, code)",
 		Assumptions: []string{"RFC 7967 section 2.1 defines only bits 2, 8 and 16; all other bits suppress nothing"},
 		Floor:       1000,
 	}, engines...)
